@@ -694,10 +694,12 @@ class SymEval:
             return app("not", v)
         raise Unsupported("unary " + op)
 
-    def arith(self, op, a, b):
+    INT_TYPES = {"usize", "isize", "u8", "u16", "u32", "u64", "u128", "i8", "i16", "i32", "i64", "i128"}
+
+    def arith(self, op, a, b, integer=False):
         if op in ("Add", "Sub", "Mul") and isinstance(a, Poly) and isinstance(b, Poly):
             return a + b if op == "Add" else (a - b if op == "Sub" else a * b)
-        if op in ("Add", "Sub", "Mul", "Div") and self.mode == "real" and \
+        if op in ("Add", "Sub", "Mul", "Div") and self.mode == "real" and not (integer and op == "Div") and \
                 isinstance(a, (Poly, Rat)) and isinstance(b, (Poly, Rat)):
             a, b = to_rat(a), to_rat(b)
             if op == "Add":
@@ -773,7 +775,8 @@ class SymEval:
         b = self.eval(n["r"], env)
         if n.get("ovl") and not (isinstance(a, (Poly, Rat)) and isinstance(b, (Poly, Rat))):
             return app("op_" + n["op"].lower(), a, b)
-        return self.arith(n["op"], a, b)
+        # `/` on integer operands truncates, whatever the evaluation mode (a later `as f64` does not undo it)
+        return self.arith(n["op"], a, b, integer=(n.get("ty") or "").lstrip("&") in self.INT_TYPES)
 
     def e_field(self, n, env):
         return self.field(self.eval(n["e"], env), n["f"])
